@@ -104,3 +104,51 @@ __CPROVER_ensures(!self->g_is_null ==> self->_file_size >= log_statement_size) /
     dropped=['all statement attributes except timestamp and line size', 'class template parameter'], trusted=['base sink write_log writes the whole line once (FileSink/StreamSink)'], min_obligations=10)
 
 UNITS = [calc_tp, time_rotation, size_rotation, write_log]
+
+# ------------------------------------------------------------------------------------------ _rotate_files: count logic
+RF_PRELUDE = PRELUDE + r'''
+typedef struct DQ { size_t n; } DQ;
+typedef struct RSF { DQ _created_files; Cfg _config; uint64_t _open_file_timestamp; size_t _file_size; long g_file_size_on_disk; } RSF;
+size_t g_flushes, g_closes, g_opens, g_removed_files, g_renames, g_pop_backs, g_emplace_fronts, g_clock, g_t_close, g_t_open, g_t_remove, g_t_rename; bool g_removed_was_back;
+static inline size_t DQ_size(DQ* d) { return d->n; }
+static inline uint32_t CFG_max_backup_files(Cfg const* c) { return c->max_backup_files; }
+static inline bool CFG_overwrite_rolled_files(Cfg const* c) { return c->overwrite; }
+void BASE_flush_and_fsync(RSF* self) __CPROVER_assigns(g_flushes) __CPROVER_ensures(g_flushes == OLD(g_flushes) + 1);
+static inline long GET_FILE_SIZE(RSF* self) { return self->g_file_size_on_disk; }
+void CLOSE_FILE(RSF* self) __CPROVER_assigns(g_closes, g_clock, g_t_close) __CPROVER_ensures(g_closes == OLD(g_closes) + 1 && g_clock == OLD(g_clock) + 1 && g_t_close == g_clock);
+/* naming + rename chain of the kept files (NOT covered: strings / std::filesystem) */
+void RENAME_CHAIN(RSF* self) __CPROVER_assigns(g_renames, g_clock, g_t_rename) __CPROVER_ensures(g_renames == OLD(g_renames) + 1 && g_clock == OLD(g_clock) + 1 && g_t_rename == g_clock);
+void REMOVE_BACK_FILE(RSF* self) __CPROVER_requires(self->_created_files.n > 0) __CPROVER_assigns(g_removed_files, g_clock, g_t_remove) __CPROVER_ensures(g_removed_files == OLD(g_removed_files) + 1 && g_clock == OLD(g_clock) + 1 && g_t_remove == g_clock);
+void DQ_pop_back(DQ* d) __CPROVER_requires(d->n > 0) __CPROVER_assigns(d->n, g_pop_backs) __CPROVER_ensures(d->n == OLD(d->n) - 1 && g_pop_backs == OLD(g_pop_backs) + 1);
+void DQ_emplace_front_current(DQ* d) __CPROVER_assigns(d->n, g_emplace_fronts) __CPROVER_ensures(d->n == OLD(d->n) + 1 && g_emplace_fronts == OLD(g_emplace_fronts) + 1);
+void OPEN_FILE_W(RSF* self) __CPROVER_requires(g_closes == 1) __CPROVER_assigns(g_opens, g_clock, g_t_open) __CPROVER_ensures(g_opens == OLD(g_opens) + 1 && g_clock == OLD(g_clock) + 1 && g_t_open == g_clock);
+#define REFUSED(s, n0) (((n0) > (s)->_config.max_backup_files && !(s)->_config.overwrite) || (s)->g_file_size_on_disk <= 0)
+'''
+rotate_files = dict(
+    name='RS.rotate_files', primary='C14', props={'C14'}, kind='S',
+    desc='RotatingSink::_rotate_files, count logic: refused (nothing touched) when the backup limit is reached without overwrite permission or the file is empty; otherwise at most one file - the oldest - is deleted, only when overwriting is allowed, and the list never exceeds max_backup_files + 1',
+    structs=[], prelude=RF_PRELUDE, enforce='RS__rotate_files',
+    replace=['BASE_flush_and_fsync', 'CLOSE_FILE', 'RENAME_CHAIN', 'REMOVE_BACK_FILE', 'DQ_pop_back', 'DQ_emplace_front_current', 'OPEN_FILE_W'],
+    funcs=[dict(src=dict(header=H, cls='RotatingSink', name='_rotate_files'), src_params=['record_timestamp_ns'], cfun='RS__rotate_files',
+                sig='void RS__rotate_files(RSF* self, uint64_t record_timestamp_ns)', cls_c='RS', member_fields=['_created_files', '_config', '_open_file_timestamp', '_file_size'],
+                methods={'size': 'DQ_size', 'max_backup_files': 'CFG_max_backup_files', 'overwrite_rolled_files': 'CFG_overwrite_rolled_files', 'pop_back': 'DQ_pop_back'},
+                pre_rules=[(r'base_type::flush_sink\(\)\s*;\s*base_type::fsync_file\(true\)\s*;', 'BASE_flush_and_fsync(self);', 1),
+                           (r'_get_file_size\(this->_filename\)', 'GET_FILE_SIZE(self)', 1), (r'this->close_file\(\)\s*;', 'CLOSE_FILE(self);', 1),
+                           (r'std::string\s+datetime_suffix\s*;.*?(?=if\s*\(\s*_created_files\.size\(\)\s*>\s*_config\.max_backup_files\(\)\s*\)\s*\{\s*fs::path)', 'RENAME_CHAIN(self);\n', 1),
+                           (r'fs::path\s+const\s+removed_file\s*=\s*_get_filename\s*\(.*?\)\s*;\s*_remove_file\(removed_file\)\s*;', 'REMOVE_BACK_FILE(self);', 1),
+                           (r'_created_files\.emplace_front\(this->_filename,\s*0,\s*std::string\{\}\)\s*;', 'DQ_emplace_front_current(&_created_files);', 1),
+                           (r'this->open_file\(this->_filename,\s*"w"\)\s*;', 'OPEN_FILE_W(self);', 1)],
+                contract=r'''
+__CPROVER_requires(__CPROVER_is_fresh(self, sizeof(*self)) && self->_created_files.n <= (size_t)self->_config.max_backup_files + 1 && g_closes == 0 && g_opens == 0 && g_removed_files == 0 && g_pop_backs == 0 && g_emplace_fronts == 0 && g_clock == 0 && g_renames == 0)
+__CPROVER_assigns(self->_created_files.n, self->_open_file_timestamp, self->_file_size, g_flushes, g_closes, g_opens, g_removed_files, g_renames, g_pop_backs, g_emplace_fronts, g_clock, g_t_close, g_t_open, g_t_remove, g_t_rename)
+#define N0 OLD(self->_created_files.n)
+__CPROVER_ensures(REFUSED(self, N0) ==> (self->_created_files.n == N0 && g_closes == 0 && g_opens == 0 && g_removed_files == 0 && g_renames == 0 && self->_file_size == OLD(self->_file_size) && self->_open_file_timestamp == OLD(self->_open_file_timestamp))) /*@ C14 "when the backup limit is reached and overwriting is not allowed (or the file is empty) rotation stops: nothing is closed, renamed or deleted" */
+__CPROVER_ensures(!REFUSED(self, N0) ==> (g_closes == 1 && g_opens == 1 && g_t_close < g_t_rename && g_t_rename < g_t_open && self->_file_size == 0 && self->_open_file_timestamp == record_timestamp_ns)) /*@ C14 "a rotation closes the file, renames the kept files and opens a fresh one; the new file starts empty and is named after the moment it was opened" */
+__CPROVER_ensures(g_removed_files <= 1 && g_removed_files == g_pop_backs && (g_removed_files == 1 ==> (self->_config.overwrite && N0 > self->_config.max_backup_files && !REFUSED(self, N0)))) /*@ C14 "at most one file is deleted per rotation - the oldest - and only when overwriting is allowed and the limit is exceeded" */
+__CPROVER_ensures(self->_created_files.n <= (size_t)self->_config.max_backup_files + 1) /*@ C14 "at most max_backup_files rotated files (plus the open one) are kept" */
+__CPROVER_ensures(!REFUSED(self, N0) ==> g_emplace_fronts == 1) /*@ C14 "the newly opened file is recorded as the newest" */
+''')],
+    harness='  RSF* s; uint64_t t; RS__rotate_files(s, t);',
+    dropped=['file names, date suffixes and the rename chain over the deque (one stub: NOT covered)', 'std::filesystem, flush/fsync internals'],
+    trusted=['_get_file_size reports the size on disk after flush+fsync'], min_obligations=30)
+UNITS.append(rotate_files)
